@@ -206,10 +206,22 @@ def build_harness(log):
     return True, ""
 
 
-def run_harness(args, inp=None, timeout=7200):
+def harness_timeout(args):
+    """how long the real crate may take on a batch of cases: the unchanged tree needs seconds for a
+    quick batch and about two minutes for the largest thorough one"""
+    return 5400 if "thorough" in args else 1200
+
+
+def run_harness(args, inp=None, timeout=None):
     exe = os.path.join(HARNESS, "target", "release", "harness")
     env = {"VERIF_WORK": WORK}
-    p = subprocess.run([exe] + args, input=inp, capture_output=True, text=True, timeout=timeout, env={**os.environ, **env})
+    timeout = timeout or harness_timeout(args)
+    try:
+        p = subprocess.run([exe] + args, input=inp, capture_output=True, text=True, timeout=timeout, env={**os.environ, **env})
+    except subprocess.TimeoutExpired as e:
+        # not a crash of the check: an observation about the code under test
+        out = e.stdout.decode(errors="replace") if isinstance(e.stdout, bytes) else (e.stdout or "")
+        return 124, out, f"the harness (real crate, `{' '.join(args)}`) did not finish within {timeout} s"
     return p.returncode, p.stdout, p.stderr
 
 
@@ -398,12 +410,30 @@ def main():
         # (a search triggered by a broken proof uses the thorough budget on ONE seed; the thorough
         # tier itself explores several seeds in parallel)
         st = search_tier if P.get("driver_ok", True) else tier
-        E = explore_many(prop, st, seed, log) if tier == "thorough" else explore(prop, st, seed, log)
-        for line in E["cases"]:
-            i = line.partition(" ")[0]
-            a, b = E["impl"].get(i), E["model"].get(i)
-            if a is None or b is None or canon(prop, a) != canon(prop, b):
-                disagreements.append(dict(id=i, case=line.partition(" ")[2], impl=a, model=b))
+
+        def compare(E):
+            out = []
+            for line in E["cases"]:
+                i = line.partition(" ")[0]
+                a, b = E["impl"].get(i), E["model"].get(i)
+                if a is None or b is None or canon(prop, a) != canon(prop, b):
+                    out.append(dict(id=i, case=line.partition(" ")[2], impl=a, model=b))
+            return out
+
+        _known = load_json(os.path.join(VERIF, "known_findings.json"), {"findings": [], "fixed": []})
+        _known_sigs = {(k["property"], k["signature"]) for k in _known.get("findings", [])}
+        if tier != "thorough" and st != tier:
+            # the nominal budget first: when it already shows a failing input (or a disagreement)
+            # the wide search is not needed
+            E = explore(prop, tier, seed, log)
+            disagreements = compare(E)
+            if not ([f for f in E["oracle_fail"] if (prop, f["signature"]) not in _known_sigs] or disagreements or E["errors"]):
+                log.append("nominal budget found nothing: searching with the thorough budget")
+                E = explore(prop, st, seed, log)
+                disagreements = compare(E)
+        else:
+            E = explore_many(prop, st, seed, log) if tier == "thorough" else explore(prop, st, seed, log)
+            disagreements = compare(E)
     # the independent whitepaper decoder run on the REAL writer's bytes is an oracle on the
     # implementation (C02), not a model-vs-implementation comparison
     for d in [d for d in disagreements if d["case"].startswith("specdecode ")]:
